@@ -48,6 +48,11 @@ NOTES = {
     "C08-r4-2": "missed at first: in the service+feeds profile every answer was supplied by the feed workload's responder and the respond verdict skipped such answers; the verdict now covers every answer that passes the module's own stateless validation",
     "C08-r4-3": "same as C08-r4-2",
     "C12-r4-1": "needed the comparison of the chain before the zero-height preparation with the re-imported one (prep-preserves)",
+    "C02-r4-2": "the README's route (a bank send into the module account) is closed in this application's wiring, but a swap may name the module account as its recipient (the keeper pays recipients without asking the bank's blocked list): added that recipient; the coins such swaps deliver must stay",
+    "C03-r4-3": "needed an expiry height of 255 mod 256: chains that start just below 2^8 / 2^16 / 2^32 (initial height knob)",
+    "C05-r4-2": "only visible after export/import at the pool's end height: caught by C12 (raw store comparison)",
+    "C13-r4-1": "needed more than a hundred contracts falling due in one block (expiry burst)",
+    "C13-r4-2": "its first run hit a simulator that did not build at that moment (harness edit in progress); re-run",
     "C16-r4-3": "needed operations that only exist under the new parameter set: the lab now lets the deputy and a user open transfers of every asset the set adds, in the block the set comes into force",
     "C12-r4-3": "reported as missed by a run of the check that was broken at that moment (the random genesis arm registered its requests too late); caught by the raw store comparison",
     "C16-r4-2": "needed the canonical small operations on a fresh chain (overflow by the parameter value alone) and integer values up to 2^250",
